@@ -164,3 +164,96 @@ func VH_C05_extraction_law() {
 	}
 	vObserve("n", len(got))
 }
+
+//verif:harness prop=C05 quick=5 thorough=10 merge=concrete timeout=1500
+//verif:bounds API level: gts.Reverse and gts.Complement on a sequence of 5 (quick) / 6 (thorough) concrete residues with a full-length source and one feature with symbolic coordinates and flags: atom of every kind (range, point, between, ambiguous) | 2-part join of ranges in any order (so also parts whose lengths add up to the sequence length, origin-spanning) | complemented range | 2-part order | full-length partial range: Reverse mirrors coverage per strand and swaps the markers, Complement flips the strand of every part and nothing else, both are involutions on the location
+func VH_C05_mirror_api() {
+	sh := vShard(5 + 5*vTier())
+	L := 5 + sh/5
+	data := []byte("acgtna")[:L]
+	var loc Location
+	switch sh % 5 {
+	case 0:
+		loc = vGenAtom("f", L, 4)
+	case 1:
+		loc = Join(vGenParts("f", 2, L, 1)...)
+	case 2:
+		loc = vGenAtom("f", L, 1).Complement()
+	case 3:
+		loc = Order(vGenParts("f", 2, L, 2)...)
+	default:
+		loc = PartialRange(0, L, Partial{vBool("f.p5"), vBool("f.p3")})
+	}
+	ff := FeatureSlice{}
+	ff = ff.Insert(Feature{"source", Range(0, L), vFeatTag(0)})
+	ff = ff.Insert(Feature{"gene", loc, vFeatTag(1)})
+	seq := New(nil, ff, data)
+	as := vAtoms(loc)
+	find := func(s Sequence) ([]vAtom, Location, bool) {
+		f, n := vFindTagged(s.Features(), "1")
+		if n != 1 {
+			return nil, nil, false
+		}
+		return vAtoms(f.Loc), f.Loc, true
+	}
+	x := vIntIn("x", 0, L)
+	vAssume(x < L)
+	// Reverse
+	rv := Reverse(seq)
+	vCover("reversed")
+	rs, rloc, ok := find(rv)
+	vAssert("feature-present-once", ok)
+	if ok {
+		vAssert("in-range", vInRange(rs, L))
+		vAssert("mirror-fwd", vCovS(as, x, false) == vCovS(rs, L-1-x, false))
+		vAssert("mirror-rev", vCovS(as, x, true) == vCovS(rs, L-1-x, true))
+		a5, a3 := vMarkerCounts(as)
+		r5, r3 := vMarkerCounts(rs)
+		if vSameKindsMirrored(as, rs) {
+			// no part was merged or absorbed: part k mirrors part n-1-k, markers swap ends
+			for k := range as {
+				m := rs[len(rs)-1-k]
+				if as[k].kind == vkRanged {
+					vAssert("markers-swap", vAnd(m.p5 == as[k].p3, m.p3 == as[k].p5))
+				}
+			}
+		} else {
+			vAssert("markers-not-invented", vAnd(r5 <= a3, r3 <= a5))
+		}
+		back, _, ok2 := find(Reverse(rv))
+		vAssert("reverse-involution", vAnd(ok2, vSameAtoms(back, as)))
+		_ = rloc
+	}
+	// Complement
+	cp := Complement(seq)
+	cs, _, okc := find(cp)
+	vAssert("feature-present-once", okc)
+	if okc {
+		vAssert("complement-flips-strand-fwd", vCovS(as, x, false) == vCovS(cs, x, true))
+		vAssert("complement-flips-strand-rev", vCovS(as, x, true) == vCovS(cs, x, false))
+		if len(cs) == len(as) {
+			for k := range as {
+				m := cs[len(cs)-1-k]
+				vAssert("complement-keeps-part", vAnd(vAnd(m.s == as[k].s, m.e == as[k].e), vAnd(m.kind == as[k].kind, m.rev != as[k].rev)))
+			}
+		} else {
+			vAssert("complement-keeps-arity", false)
+		}
+		back, _, ok2 := find(Complement(cp))
+		vAssert("complement-involution", vAnd(ok2, vSameAtoms(back, as)))
+	}
+	vObserve("n", len(rs))
+}
+
+// vSameKindsMirrored: b has the kinds of a in mirrored order.
+func vSameKindsMirrored(a, b []vAtom) bool {
+	if len(a) != len(b) {
+		return false
+	}
+	for k := range a {
+		if a[k].kind != b[len(b)-1-k].kind {
+			return false
+		}
+	}
+	return true
+}
